@@ -143,7 +143,7 @@ fn suite_classes(g: &Gram, out: &mut Out, rng: &mut Rng, path: &str, reps: usize
         for _ in 0..reps {
             let mut ctx = Ctx::new();
             let insts: Vec<SInst> = classes.iter().map(|c| class_inst(g, c, rng, &mut ctx)).collect();
-            out.ev(load_event(&insts, 0x0001_0300, 1 + rng.below(500) as u32, "model", false));
+            out.ev(load_event(&insts, if rng.chance(3, 4) { 0x0001_0300 } else { ((rng.below(256) as u32) << 16) | ((rng.below(256) as u32) << 8) }, 1 + rng.below(500) as u32, "model", false));
         }
     }
 }
@@ -294,7 +294,9 @@ fn suite_random(g: &Gram, out: &mut Out, rng: &mut Rng, n: usize) {
     for k in 0..n {
         let shuffle = k % 2 == 1;
         let (insts, layout) = random_loadable(g, rng, shuffle, 3);
-        let version = *rng.pick(&[0x0001_0000u32, 0x0001_0300, 0x0001_0600]);
+        // "a header carrying the input's version": any major.minor byte pair (word 0x00MMmm00), the released ones most often
+        let version = if rng.chance(1, 2) { *rng.pick(&[0x0001_0000u32, 0x0001_0300, 0x0001_0600]) }
+                      else { let b = [0u32, 1, 2, 6, 9, 15, 16, 17, 31, 32, 64, 127, 128, 200, 255]; (*rng.pick(&b) << 16) | (*rng.pick(&b) << 8) };
         out.ev(load_event(&insts, version, rng.below(100000) as u32, if layout { "random-layout" } else { "random-shuffled" }, layout));
         // a structural fault somewhere
         if !insts.is_empty() && rng.chance(1, 2) {
